@@ -490,6 +490,10 @@ impl Module for XModule {
         if msg.fail {
             return Err(AnyError::msg("custom module: scripted failure"));
         }
+        // every third tag: an entirely empty answer (no events, no data), like the crate's accepting modules
+        if msg.tag % 3 == 0 {
+            return Ok(AppResponse::default());
+        }
         Ok(AppResponse { events: vec![Event::new("xmod").add_attribute("tag", msg.tag.to_string())], data: Some(Binary::from(format!("x{}", msg.tag).into_bytes())) })
     }
 
